@@ -359,6 +359,14 @@ private:
       // Advance from the scheduled rotation point by whole periods, not from the timestamp of the
       // record, otherwise the schedule drifts (e.g. "daily at 02:00" becomes "24h after the first
       // record that followed 02:00")
+      if (_config.rotation_frequency() == RotatingFileSinkConfig::RotationFrequency::Daily)
+      {
+        // The next HH:MM after this record in the sink's time zone, found with calendar arithmetic: a
+        // fixed 24h step moves the rotation away from HH:MM local time at every daylight saving switch
+        _next_rotation_time = _calculate_initial_rotation_tp(record_timestamp_ns, _config);
+        return true;
+      }
+
       uint64_t const rotation_period_ns = _calculate_rotation_tp(0, _config);
       _next_rotation_time +=
         (((record_timestamp_ns - _next_rotation_time) / rotation_period_ns) + 1) * rotation_period_ns;
@@ -761,6 +769,19 @@ private:
       date.tm_hour = static_cast<decltype(date.tm_hour)>(config.daily_rotation_time().first.count());
       date.tm_min = static_cast<decltype(date.tm_min)>(config.daily_rotation_time().second.count());
       date.tm_sec = 0;
+      // daylight saving may differ between now and HH:MM, let mktime find out
+      date.tm_isdst = -1;
+
+      time_t const today_rotation_time =
+        (config.timezone() == Timezone::GmtTime) ? detail::timegm(&date) : std::mktime(&date);
+
+      if (today_rotation_time <= time_now)
+      {
+        // HH:MM has passed for today, take HH:MM of the next calendar day (not +24h, the day of a
+        // daylight saving switch has 23 or 25 hours)
+        date.tm_mday += 1;
+        date.tm_isdst = -1;
+      }
     }
     else
     {
